@@ -49,8 +49,8 @@ PROP_BOOST = {
     'C04': {'import_text': 10, 'clone_graph': 5, 'delete_graph': 4, 'update_nodes_property': 4},
     'C05': {},
     'C06': {'q_first': 8, 'q_two_hop': 8, 'q_shortest': 8, 'q_hops': 5, 'q_parent': 3, 'q_peers': 3, 'q_cps': 3,
-            'add_link': 14, 'add_node': 12},
-    'C20': {'import_text': 10, 'delete_graph': 5, 'clone_graph': 4, 'add_node': 10},
+            'add_link': 14, 'add_node': 12, 'merge_nodes': 8, 'import_text': 8},
+    'C20': {'import_text': 10, 'delete_graph': 5, 'clone_graph': 4, 'add_node': 10, 'crash_enum': 6},
 }
 
 
@@ -93,7 +93,7 @@ class W1World(World):
         # swarm: disable a random subset of operation kinds, scale others
         for k in list(mix):
             r = rng.random()
-            if r < 0.12 and k not in ('add_node', 'import_text'):
+            if r < 0.12 and k not in ('add_node', 'import_text', 'crash_enum'):
                 mix[k] = 0
             elif r < 0.3:
                 mix[k] = mix[k] * 3
@@ -221,8 +221,11 @@ class W1World(World):
                     val = rng.choice(NAMES)
                 else:
                     val = adv_str(rng)
-            elif k < 0.65:
+            elif k < 0.58:
                 name, val = rng.choice(INT_PROPS), adv_int(rng)
+            elif k < 0.65:
+                # one name, values of either type (GraphML needs one key per name/type/scope)
+                name, val = 'M0', (adv_int(rng) if rng.random() < 0.5 else adv_str(rng))
             elif k < 0.8:
                 name = rng.choice(JSON_PROPS)
                 val = rng.choice(['{"core": 1}', '{}', '', 'None', '{bad', '[1]', '{"vlan": "1-3"}'])
@@ -237,11 +240,13 @@ class W1World(World):
         r = rng.random()
         if identity_ok and r < 0.3:
             return rng.choice(['Class', 'NodeID', 'GraphID', 'Type', 'Name'])
-        return rng.choice(STR_PROPS + INT_PROPS + JSON_PROPS + ['StitchNode'])
+        return rng.choice(STR_PROPS + INT_PROPS + JSON_PROPS + ['StitchNode', 'M0'])
 
     def gen_value_for(self, rng, name):
         if name in INT_PROPS:
             return adv_int(rng)
+        if name == 'M0':
+            return adv_int(rng) if rng.random() < 0.5 else adv_str(rng)
         if name == 'Type':
             return rng.choice(TYPES)
         if name == 'Name':
@@ -286,6 +291,8 @@ class W1World(World):
                         ep[k] = adv_int(rng)
                     if k == 'P0' and not isinstance(ep[k], str):
                         ep[k] = adv_str(rng)
+            if rng.random() < 0.25:
+                ep['M0'] = adv_int(rng) if rng.random() < 0.5 else adv_str(rng)
             edges.append(['n%d' % a, 'n%d' % b, ep])
         return {'nodes': nodes, 'edges': edges}
 
@@ -315,6 +322,8 @@ class W1World(World):
                 lp['P0'] = adv_str(rng)
             if rng.random() < 0.15:
                 lp['I0'] = adv_int(rng)
+            if rng.random() < 0.2:
+                lp['M0'] = adv_int(rng) if rng.random() < 0.5 else adv_str(rng)
             s.update(a=a, b=b, rel=rng.choice(RELS), props=lp if (lp or rng.random() < 0.5) else None)
         elif op in ('update_node_property',):
             name = self.gen_prop_name(rng)
@@ -461,6 +470,8 @@ class W1World(World):
                 self.client_graphs[client].append(s['new'])
         elif op in QUERY_OPS:
             queries.gen_query(self, rng, s, g)
+        elif op == 'crash_enum':
+            gen_crash_enum(self, rng, s)
         return s
 
     # ------------------------------------------------------------------ execution
@@ -640,6 +651,7 @@ class W1World(World):
         outs = {}
         for b in BACKENDS:
             outs[b] = self.real_call(b, real_fn)
+        self._last_outs, self._last_model_out = outs, mv
         for b in BACKENDS:
             exp = mv
             if outs[b][0] != exp[0] or (outs[b][0] == 'exc' and outs[b][1] != exp[1]):
@@ -1037,3 +1049,176 @@ class W1World(World):
 
     def finish(self):
         pass
+
+
+# ------------------------------------------------------------------------------------------------
+# C20 part A: crash-point enumeration of one store operation (sequential)
+# ------------------------------------------------------------------------------------------------
+import copy as _copy
+import linecache as _linecache
+import sys as _sys
+
+STORE_OPS = ['add_graph', 'add_graph_direct', 'del_graph', 'extract_graph', 'get_graph', 'del_all_graphs',
+             'add_blank_node_to_graph']
+
+
+def _store_files():
+    import fim.graph.networkx_property_graph as a
+    import fim.graph.networkx_property_graph_disjoint as b
+    import fim.graph.networkx_mixin as c
+    return {a.__file__, b.__file__, c.__file__}
+
+
+class _Injected(MemoryError):
+    pass
+
+
+def gen_crash_enum(w, rng, s):
+    b = rng.choice(BACKENDS)
+    sop = rng.choice(STORE_OPS)
+    gids = sorted(set(k[0] for k in w.model.nodes))
+    variant = rng.choice(['existing', 'fresh']) if gids else 'fresh'
+    g = rng.choice(gids) if (gids and variant == 'existing') else 'G-crash-fresh'
+    desc = w.gen_desc(rng, rng.choice(['good', 'good', 'no_node_id']), g)
+    s.update(op='crash_enum', b=b, store_op=sop, g=g, variant=variant, desc=desc)
+    return s
+
+
+def do_crash_enum(w, s):
+    import networkx as nx
+    b, sop, g = s['b'], s['store_op'], s['g']
+    inst = w.imp[b].storage.storage_instance
+    files = _store_files()
+    lock = w.locks[b]
+
+    def snapshot():
+        if b == 'shared':
+            return (_copy.deepcopy(inst.graphs), inst.start_id)
+        return ({k: _copy.deepcopy(v) for k, v in inst.graphs.items()}, dict(inst.graph_node_ids))
+
+    def restore(snap):
+        if b == 'shared':
+            inst.graphs = _copy.deepcopy(snap[0])
+            inst.start_id = snap[1]
+        else:
+            inst.graphs.clear()
+            for k, v in snap[0].items():
+                inst.graphs[k] = _copy.deepcopy(v)
+            inst.graph_node_ids.clear()
+            inst.graph_node_ids.update(snap[1])
+
+    def build():
+        G = nx.Graph()
+        for key, p in s['desc']['nodes']:
+            G.add_node(key, **p)
+        for a, z, p in s['desc']['edges']:
+            G.add_edge(a, z, **p)
+        return G
+
+    def call():
+        if sop == 'add_graph':
+            return inst.add_graph(g, build())
+        if sop == 'add_graph_direct':
+            return inst.add_graph_direct(g, build())
+        if sop == 'del_graph':
+            return inst.del_graph(g)
+        if sop == 'extract_graph':
+            return inst.extract_graph(g)
+        if sop == 'get_graph':
+            return inst.get_graph(g)
+        if sop == 'del_all_graphs':
+            return inst.del_all_graphs()
+        return inst.add_blank_node_to_graph(g, Class='NetworkNode', NodeID='crash-probe')
+
+    state = {'n': 0, 'target': None, 'where': None}
+
+    def local(frame, event, arg):
+        if event == 'line':
+            state['n'] += 1
+            if state['n'] == state['target']:
+                src = _linecache.getline(frame.f_code.co_filename, frame.f_lineno)
+                st = src.strip()
+                # not injection sites: the lock calls themselves, and lines whose line event lies outside the
+                # protected range by construction of the bytecode (try:/finally:/return inline the finally body)
+                if 'lock.release' in src or 'lock.acquire' in src or st in ('try:', 'finally:') or \
+                        st.startswith('return'):
+                    state['where'] = None
+                    return local
+                state['where'] = (os.path.basename(frame.f_code.co_filename), frame.f_code.co_name,
+                                  src.strip()[:60])
+                raise _Injected('injected at %s:%d' % (frame.f_code.co_filename, frame.f_lineno))
+        return local
+
+    def tracer(frame, event, arg):
+        if event == 'call' and frame.f_code.co_filename in files:
+            return local
+        return None
+
+    def traced(target):
+        state['n'] = 0
+        state['target'] = target
+        state['where'] = None
+        lock.reset()
+        old = _sys.gettrace()
+        _sys.settrace(tracer)
+        try:
+            try:
+                call()
+                return 'ok'
+            except _Injected:
+                return 'injected'
+            except seams.SimDeadlock:
+                return 'deadlock'
+            except Exception as e:
+                return 'exc:' + type(e).__name__
+        finally:
+            _sys.settrace(old)
+
+    snap = snapshot()
+    w._cur_op = 'crash_enum:' + sop
+    traced(None)
+    L = state['n']
+    natural_errors = list(lock.errors)
+    natural_held = lock.held
+    lock.force_release()
+    lock.reset()
+    restore(snap)
+    fired = 0
+    for i in range(1, L + 1):
+        res = traced(i)
+        if res == 'injected':
+            fired += 1
+            where = state['where']
+            sig = {'store': b, 'op': sop, 'func': where[1], 'line': where[2], 'cond': s['variant']}
+            if lock.held:
+                w.flag('C20', 'lock_not_held_on_exit', dict(sig, symptom='held_after_exception'),
+                       '%s store %s(%s): an exception raised at "%s" (in %s) leaves the store lock held' %
+                       (b, sop, s['variant'], where[2], where[1]))
+            for err in lock.errors:
+                w.flag('C20', 'lock_no_double_release', dict(sig, symptom=err),
+                       '%s store %s: exception at "%s" -> %s' % (b, sop, where[2], err))
+            if not lock.held and not lock.errors:
+                # a following ordinary operation on another graph completes
+                lock.reset()
+                try:
+                    inst.add_blank_node_to_graph('G-after-crash', Class='NetworkNode', NodeID='p')
+                except BaseException as e:   # noqa
+                    w.flag('C20', 'later_caller_not_blocked', dict(sig, symptom=type(e).__name__),
+                           'after an exception in %s a later add_blank_node_to_graph failed: %r' % (sop, e))
+        lock.force_release()
+        lock.reset()
+        restore(snap)
+        if w.pending:
+            break
+    if natural_errors or natural_held:
+        w.flag('C20', 'lock_balanced', {'store': b, 'op': sop, 'symptom': 'natural:%s' % (natural_errors or 'held'),
+                                        'cond': s['variant']},
+               '%s store %s(%s) without any fault: lock errors %s held=%s' % (b, sop, s['variant'], natural_errors,
+                                                                             natural_held))
+    w.stats.inc('faults.crashpoint.%s' % sop, fired)
+    w.stats.inc('probe.crash_enum.line_events', L)
+    w.faults_fired += fired
+    return set(), 'ok'
+
+
+W1World.do_crash_enum = lambda self, s: do_crash_enum(self, s)
